@@ -27,7 +27,7 @@ PROPS = {
         nontrivial=r"^fold-",
         rule="all shapes 1-4 axes x lengths 1..4 (+1-2 axes x 5..7, + random; thorough: all 1-4 x 1..7) with random dyadic non-antisymmetric data "
              "(exact in binary64), all four fills, NaN/inf inputs in 1/7 of the shapes; fold(fold x) and fold(reverse x) evaluated on the implementation; "
-             "non-trivial = distinct request (every fold of a shape with >= 1 element exercises the three-way match) 60 (thorough 600) `hist.scs` call histories; size sweeps (every 1-axis length up to 64 and every third up to 300, thorough all up to 700; n x 2 / 2 x n / 3 x n; 5-8 short axes). Round 7: `c05.big` — spectra of 65537 … 262144 entries held against fold_mass / fold_spec / fold_idem / reverse_is_mirror on the implementation's output.",
+             "non-trivial = distinct request (every fold of a shape with >= 1 element exercises the three-way match) 60 (thorough 600) `hist.scs` call histories; size sweeps (every 1-axis length up to 64 and every third up to 300, thorough all up to 700; n x 2 / 2 x n / 3 x n; 5-8 short axes). Round 7: `c05.big` — spectra of 65537 … 262144 entries held against fold_mass / fold_spec / fold_idem / reverse_is_mirror on the implementation's output. Round 8: 2^1023 / 1.5 * 2^1023 on the diagonal (the pair's sum overflows, the average does not).",
         exhaustive=True,
         assumptions=["values are multiples of 1/4 below 2^9 so that binary64 sums and halves are exact and compared exactly"],
     ),
@@ -48,7 +48,7 @@ PROPS = {
         rule="real `sfs view -O npy` binary on 40 (thorough 400) random non-negative count spectra with 1-4 axes x all 2^4 option subsets "
              "(marginalize via -m or -M, project via --project-shape or -p, --mask-monomorphic, -n; 1/12 of marginalization / projection arguments inadmissible), "
              "single invocation and the four-stage chain piped through npy, compared with viewRun in exact rationals within 2^-30 relative; a quarter of the cases also as text at precision 0/1/3/6/12/15 (header line exact, one token per entry with exactly p decimals, each within half a printed unit + 2^-30 relative of the model value); "
-             "non-trivial = distinct request with at least one option set, or an error case A fifth of the inputs are on frequency scale already (dyadic fractions summing to exactly one), a tenth sum to one only between the corners, a tenth are zero except the corners. A fifth of the inputs have monomorphic cells of 2^52 / 2^53 / 1e18 / 1e300 next to single-digit interior counts. Round 6: keep lists naming an axis twice (adjacent or not) or an axis the spectrum does not have. Round 7: text outputs of 100 KiB and more through `view`, plain / masked / normalised.",
+             "non-trivial = distinct request with at least one option set, or an error case A fifth of the inputs are on frequency scale already (dyadic fractions summing to exactly one), a tenth sum to one only between the corners, a tenth are zero except the corners. A fifth of the inputs have monomorphic cells of 2^52 / 2^53 / 1e18 / 1e300 next to single-digit interior counts. Round 6: keep lists naming an axis twice (adjacent or not) or an axis the spectrum does not have. Round 7: text outputs of 100 KiB and more through `view`, plain / masked / normalised. Round 8: -n and --mask-monomorphic -n on 65537 / 66049 (thorough 100001) entries.",
         exhaustive=False,
         assumptions=["numeric agreement within 2^-30*(|q| + scale): projection and normalisation are evaluated in binary64 by the implementation"],
         
@@ -62,7 +62,7 @@ PROPS = {
         rule="Spectrum::project in-process on every admissible target (<= 40 sampled per shape in quick) of all shapes 1-2 axes x 1..7, 3 axes x 1..3, 4 axes x 1..2 "
              "(thorough: 1-3 x 1..7, 4 x 1..3), odd-integer data and unit vectors (single operator rows), two-step vs direct, rejected targets (larger, zero, other dimensionality); "
              "hypergeometric_pmf coefficients at N in {1,2,3,169..172,500,1029,1030,2000,5000} x 120 (thorough 400) (K,n,k) probes around the mode; "
-             "compared with exact rationals within 2^-30 relative; non-trivial = distinct request with a non-identity target, a positive coefficient or an error Plus whole rows of the operator through Spectrum::project at 400 / 1100 / 1200 / 2000 (thorough up to 4000) chromosomes with the source entry mid-range and targets near half the source (c03.row), incl. one two-axis case. Every source size 1..260 (thorough 600) once: the rows of the first, middle and last source entry projected to two chromosomes. 60 (thorough 600) call histories on one spectrum object (`hist.scs`: queries, in-place edits, normalisation, clones, replacement by its own fold / marginal / projection). The large rows are repeated with source cells of 3e-14, 5e-16, 1e-300, 1e300 and 0.25.",
+             "compared with exact rationals within 2^-30 relative; non-trivial = distinct request with a non-identity target, a positive coefficient or an error Plus whole rows of the operator through Spectrum::project at 400 / 1100 / 1200 / 2000 (thorough up to 4000) chromosomes with the source entry mid-range and targets near half the source (c03.row), incl. one two-axis case. Every source size 1..260 (thorough 600) once: the rows of the first, middle and last source entry projected to two chromosomes. 60 (thorough 600) call histories on one spectrum object (`hist.scs`: queries, in-place edits, normalisation, clones, replacement by its own fold / marginal / projection). The large rows are repeated with source cells of 3e-14, 5e-16, 1e-300, 1e300 and 0.25. Round 8: `c03.row` compares every coefficient relative to its exact value (1e-6); rows with far tails; spectra whose total overflows binary64 while every entry and every projected entry is finite.",
         exhaustive=True,
         assumptions=["binary64 evaluation (ln_gamma, exp, rounding of binomials) is compared within 2^-30*(|q|+scale), not proved; 'finite for thousands of chromosomes' is decided by the coefficient probes only"],
         correspondence_only=["finite results at sizes of thousands of chromosomes (f64 range)",
@@ -76,7 +76,7 @@ PROPS = {
         rule="exhaustive: all 26 maps of 3 columns into <= 2 populations x all 64 records over {0,1,2,missing}^3 (in-process); random: 1-4 populations of unequal size, 2-12 (thorough 40) columns, "
              "any subset listed in any order, named/unnamed mix, 1-30 (thorough 300) records over called/missing/multiallelic/ploidy-error genotypes with 'only an unselected sample is bad' forced in 10%, "
              "two contigs, extra INFO/FORMAT fields; 300 in-process + 50 CLI (thorough 3000 + 400) over vcf/vcf.gz/bcf/raw bcf; stdout compared byte for byte (precision forced to 0); "
-             "non-trivial = distinct request with >= 2 populations, or with both counted and skipped records, or a failing run Positions repeat (a third of the records share contig:position with their predecessor). Byte level (`ct.create`): a third of the CLI cases are also decoded from their container bytes by the model (Inflate / Bgzf / Vcf / Bcf models) instead of being handed over in the harness's notation. Every CLI run carries a log verbosity derived from its arguments (none / -v / -vv / -vvv). INFO-rich call sets carry AC / AN values that are deliberately out of step with the genotypes. Round 6: a third of the CLI call sets use sample names and labels with blanks; VCF-bound call sets carry allele indices 256 / 257 / 65536 / 2^32 (truncation to a narrower integer). Round 7: BGZF layouts with a leading empty block, a two-byte first block, and VCF text without final newline cut inside its last line rotate through the CLI and byte-level cases.",
+             "non-trivial = distinct request with >= 2 populations, or with both counted and skipped records, or a failing run Positions repeat (a third of the records share contig:position with their predecessor). Byte level (`ct.create`): a third of the CLI cases are also decoded from their container bytes by the model (Inflate / Bgzf / Vcf / Bcf models) instead of being handed over in the harness's notation. Every CLI run carries a log verbosity derived from its arguments (none / -v / -vv / -vvv). INFO-rich call sets carry AC / AN values that are deliberately out of step with the genotypes. Round 6: a third of the CLI call sets use sample names and labels with blanks; VCF-bound call sets carry allele indices 256 / 257 / 65536 / 2^32 (truncation to a narrower integer). Round 7: BGZF layouts with a leading empty block, a two-byte first block, and VCF text without final newline cut inside its last line rotate through the CLI and byte-level cases. Round 8: a third of the CLI call sets again under --strict with the listed samples complete and the unlisted ones incomplete.",
         exhaustive=True, assumptions=["in-process cases drive the real site::Reader through an in-memory genotype::Reader; CLI cases run the real binary on generated VCF text / BCF (noodles writer, or a hand-written BCF2.2 encoder for mixed ploidy) / BGZF", "noodles (VCF/BCF/BGZF parsing), clap and env_logger are exercised, not modelled"],
     ),
     "C02": dict(
@@ -87,7 +87,7 @@ PROPS = {
         rule="exhaustive: 2 populations of 1-2 samples x every target m_j in 0..2n_j x all records over {0,1,2,missing}^n (in-process, incl. t = m for all j, t_j = m_j - 2, m_j = 0); "
              "random maps/targets incl. inadmissible ones (larger, other dimensionality, zero), -p vs --project-shape; cohorts of 90-600 (thorough 3000) samples in one population (binomials beyond f64 range); "
              "CLI with --precision in {0,1,6,15,default}; values within 2^-30 relative (+ half a unit of the printed decimal for CLI text) of the exact rational model; "
-             "non-trivial = distinct request containing a down-sampled or insufficient site, a builder error, or any CLI run Plus 24 (thorough 120) call sets over 5-8 populations whose projected sites agree in some populations and differ in others; positions repeat. Every cohort size 1..140 (thorough 300) once (all homozygous ALT / one missing / alternating) projected to one individual. All-heterozygous cohorts of 100-700 samples projected to half the cohort. Round 7: `c02.mass` — 70002 and 30000 (thorough up to 200000) generated records through the binary with projection: mass + skipped = records (a consequence of C10.conservation checked on the implementation).",
+             "non-trivial = distinct request containing a down-sampled or insufficient site, a builder error, or any CLI run Plus 24 (thorough 120) call sets over 5-8 populations whose projected sites agree in some populations and differ in others; positions repeat. Every cohort size 1..140 (thorough 300) once (all homozygous ALT / one missing / alternating) projected to one individual. All-heterozygous cohorts of 100-700 samples projected to half the cohort. Round 7: `c02.mass` — 70002 and 30000 (thorough up to 200000) generated records through the binary with projection: mass + skipped = records (a consequence of C10.conservation checked on the implementation). Round 8: operator rows with far tails (1e-13 … 1e-40) compared entry by entry relative to their own exact value.",
         exhaustive=True, assumptions=["in-process cases drive the real site::Reader through an in-memory genotype::Reader; CLI cases run the real binary on generated VCF text / BCF (noodles writer, or a hand-written BCF2.2 encoder for mixed ploidy) / BGZF", "noodles (VCF/BCF/BGZF parsing), clap and env_logger are exercised, not modelled"] + ["binary64 evaluation of the hypergeometric pmf is compared with the exact value within 2^-30 relative, not proved"],
     ),
     "C08": dict(
@@ -95,7 +95,7 @@ PROPS = {
         nontrivial=r"^(c08|ct)-cli-",
         rule="every GT string over alleles {., 0, 1, 2, 3, 10} x separators {/,|} x ploidy 1-2 (all 78) and ploidy 3 (60 sampled; thorough all 864, plus allele 62/255/2^31 in VCF), placed in a selected column, "
              "an unselected column, or with all columns selected, through the VCF text path and the BCF binary path (mixed-ploidy GT vectors with end-of-vector padding), followed by a second record; "
-             "observed: exit status, stdout bytes, skipped summary, error site 'contig:pos'; non-trivial = every distinct request (finite alphabet) Quick covers every triploid string over {., 0, 1} and tetraploid / pentaploid all-missing strings; every GT string is also placed in real VCF text / BCF int8 vectors that the container model decodes itself (`ct.create`). Plus records in which every sample has the same other ploidy (all haploid, all triploid, all-missing tetraploid) after and before diploid records, selected / unselected / all columns, VCF, BCF and byte level. Round 6: allele indices 256 … 2^32+1 and the edges of the GT grammar (leading separator, `+1`, index 2^64-1 / 2^64, empty alleles, lone separators) in VCF text. Round 7: BCF / VCF headers with IDX attributes out of line order and records on two contigs with a ploidy error (the error must name the record's contig).",
+             "observed: exit status, stdout bytes, skipped summary, error site 'contig:pos'; non-trivial = every distinct request (finite alphabet) Quick covers every triploid string over {., 0, 1} and tetraploid / pentaploid all-missing strings; every GT string is also placed in real VCF text / BCF int8 vectors that the container model decodes itself (`ct.create`). Plus records in which every sample has the same other ploidy (all haploid, all triploid, all-missing tetraploid) after and before diploid records, selected / unselected / all columns, VCF, BCF and byte level. Round 6: allele indices 256 … 2^32+1 and the edges of the GT grammar (leading separator, `+1`, index 2^64-1 / 2^64, empty alleles, lone separators) in VCF text. Round 7: BCF / VCF headers with IDX attributes out of line order and records on two contigs with a ploidy error (the error must name the record's contig). Round 8: every generated VCF spells the first ALT allele of the records at positions 5 mod 11 as `*`.",
         exhaustive=True, assumptions=["in-process cases drive the real site::Reader through an in-memory genotype::Reader; CLI cases run the real binary on generated VCF text / BCF (noodles writer, or a hand-written BCF2.2 encoder for mixed ploidy) / BGZF", "noodles (VCF/BCF/BGZF parsing), clap and env_logger are exercised, not modelled"] + ["GT '.' (whole field missing) is a missing genotype (interpretation fixed by commit b7debed)"],
     ),
     "C09": dict(
@@ -104,7 +104,7 @@ PROPS = {
         nontrivial=r"^c09-cli-",
         rule="150 (thorough 1500) call sets x sample lists (subset, random order, named/unnamed mix) given inline (-s) and as a file (-S), 3 permutations of list entries, 3 permutations of the input columns "
              "(VCF and BCF), plus error lists (absent sample, empty file, sample listed twice with different labels); every variant compared with the model, whose invariance under these transformations is proved; "
-             "non-trivial = every distinct request A third of the call sets use sample names and labels with blanks, punctuation, shared first words, a label that is a prefix of another, an empty label, non-ASCII letters. A quarter of the call sets also pass the list through a named pipe as the samples file. Every fifth call set puts haploid / triploid / tetraploid genotypes into the unlisted columns. Round 6: samples files with CR LF line endings (after every line / between lines only). Round 7: every sixth call set has a record with a skipped and a non-diploid listed sample (fails whatever the column / list order).",
+             "non-trivial = every distinct request A third of the call sets use sample names and labels with blanks, punctuation, shared first words, a label that is a prefix of another, an empty label, non-ASCII letters. A quarter of the call sets also pass the list through a named pipe as the samples file. Every fifth call set puts haploid / triploid / tetraploid genotypes into the unlisted columns. Round 6: samples files with CR LF line endings (after every line / between lines only). Round 7: every sixth call set has a record with a skipped and a non-diploid listed sample (fails whatever the column / list order). Round 8: a samples file whose last line is not valid UTF-8 must fail the run.",
         exhaustive=False, assumptions=["in-process cases drive the real site::Reader through an in-memory genotype::Reader; CLI cases run the real binary on generated VCF text / BCF (noodles writer, or a hand-written BCF2.2 encoder for mixed ploidy) / BGZF", "noodles (VCF/BCF/BGZF parsing), clap and env_logger are exercised, not modelled"],
     ),
     "C10": dict(
@@ -112,7 +112,7 @@ PROPS = {
         nontrivial=r"^(c10|ct)-cli-|^mass-",
         rule="40 (thorough 400) record streams of length 1-8 x {non-strict, strict} x a fault (ploidy error in a selected column, a site that would be skipped, a corrupt POS field, a truncated line) inserted at every "
              "position 0..len (half of them in quick), with projection in a third of the streams; checked: exit status, stdout empty on failure, 'Skipped X/Y' parsed and X + mass = Y via the model, error names "
-             "contig:pos of the first offending record; non-trivial = every distinct request Half of the streams repeat contig:position in consecutive records (counted and skipped ones); a third of the fault streams are also decoded from their VCF / BCF bytes by the container model (`ct.create`), incl. the corrupt-line kinds. One (thorough two) 600-sample stream under projection through the binary (all-heterozygous, one missing, half / half, three quarters missing). Round 6: the corrupt-line faults rotate over records whose ID / QUAL / FILTER / INFO column the VCF grammar refuses. Round 7: `c10.mass` runs (see C02).",
+             "contig:pos of the first offending record; non-trivial = every distinct request Half of the streams repeat contig:position in consecutive records (counted and skipped ones); a third of the fault streams are also decoded from their VCF / BCF bytes by the container model (`ct.create`), incl. the corrupt-line kinds. One (thorough two) 600-sample stream under projection through the binary (all-heterozygous, one missing, half / half, three quarters missing). Round 6: the corrupt-line faults rotate over records whose ID / QUAL / FILTER / INFO column the VCF grammar refuses. Round 7: `c10.mass` runs (see C02). Round 8: -q / -qq rotate with -v / -vv / -vvv on every strict run.",
         exhaustive=True, assumptions=["in-process cases drive the real site::Reader through an in-memory genotype::Reader; CLI cases run the real binary on generated VCF text / BCF (noodles writer, or a hand-written BCF2.2 encoder for mixed ploidy) / BGZF", "noodles (VCF/BCF/BGZF parsing), clap and env_logger are exercised, not modelled"] + ["for a corrupt record the reported position is not compared (noodles' reader state), only the error kind, exit status and empty stdout"],
     ),
     "C11": dict(
@@ -129,7 +129,7 @@ PROPS = {
         nontrivial=r"^(c12-same|ct-cli)",
         rule="12 (thorough 60) call sets (up to 3000 records, with/without projection and sample lists, one ending in a ploidy error) each run as {vcf, vcf.gz, bcf, raw bcf} x {path, stdin} x threads {1,3,16} "
              "(thorough 1,2,3,4,8,16) x BGZF layouts (one line per block, random cuts incl. mid-line, interleaved empty blocks; thorough also single block / 9 even cuts) x 2 (thorough 3) repeated executions: "
-             "all stdout bytes and exit classes must be identical, and equal to the model's output; non-trivial = every distinct call set (each stands for 64-200 executions) Each call set is additionally read from a named pipe given as the input path (first write of 1 / 2 / 20 bytes). Byte level (`ct.create`): 40 container files (flate2-compressed BGZF, noodles-written BCF) are decoded by the model's own inflate / BGZF / VCF / BCF decoders, and 36 container files *written by the model's encoders* (stored-block BGZF with block payloads of 1 ... 65280 bytes, plain VCF, BCF) are read by the binary: outcome = createCli of the decoded call set in both directions. A quarter of the call sets carry 126 / 197 / 266 INFO definitions ahead of FORMAT/GT (16-bit FORMAT keys in BCF). Every seventh record carries a reference allele of 16 / 130 / 300 bases (BCF typed strings with inline, 8-bit and 16-bit lengths). BGZF layouts without the end-of-file marker block and with an empty stored block in its place. Round 6: every eighth call set declares INFO fields after FORMAT/GT in the header (dictionary order of appearance, F36). Round 7: IDX-attribute headers (every eighth call set); layout variants for the ends of the stream (see C01).",
+             "all stdout bytes and exit classes must be identical, and equal to the model's output; non-trivial = every distinct call set (each stands for 64-200 executions) Each call set is additionally read from a named pipe given as the input path (first write of 1 / 2 / 20 bytes). Byte level (`ct.create`): 40 container files (flate2-compressed BGZF, noodles-written BCF) are decoded by the model's own inflate / BGZF / VCF / BCF decoders, and 36 container files *written by the model's encoders* (stored-block BGZF with block payloads of 1 ... 65280 bytes, plain VCF, BCF) are read by the binary: outcome = createCli of the decoded call set in both directions. A quarter of the call sets carry 126 / 197 / 266 INFO definitions ahead of FORMAT/GT (16-bit FORMAT keys in BCF). Every seventh record carries a reference allele of 16 / 130 / 300 bases (BCF typed strings with inline, 8-bit and 16-bit lengths). BGZF layouts without the end-of-file marker block and with an empty stored block in its place. Round 6: every eighth call set declares INFO fields after FORMAT/GT in the header (dictionary order of appearance, F36). Round 7: IDX-attribute headers (every eighth call set); layout variants for the ends of the stream (see C01). Round 8: one (thorough three) projected run of 1500+ records x 14 samples with hundreds of site classes at 17 decimals.",
         exhaustive=False, assumptions=["in-process cases drive the real site::Reader through an in-memory genotype::Reader; CLI cases run the real binary on generated VCF text / BCF (noodles writer, or a hand-written BCF2.2 encoder for mixed ploidy) / BGZF", "noodles (VCF/BCF/BGZF parsing), clap and env_logger are exercised, not modelled"] + ["thread scheduling, OS pipes and hash seeds are runtime behaviour: explored by repetition, not proved"],
     ),
 }
@@ -148,7 +148,7 @@ PROPS.update({
              "read back compared with readText (f64::from_str vs parseF64, bit for bit); 2500 (thorough 50000) single values formatted, 1650 (thorough 20000) decimal strings parsed incl. a malformed stream; "
              "format detection on prefixes; 40 (thorough 400) CLI chains `sfs view -O {npy,text} --precision p` to a pipe or a file, read by view / fold / stat with auto-detection; "
              "40 (thorough 300) text -> npy -> text chains at equal precision (clause checked on the model for <= 15 significant digits); "
-             "non-trivial = distinct request other than a 1-axis spectrum without special values, a non-finite single value or an undetected prefix Plus shapes whose npy header is 64-aligned before padding (20-22 axes) and spectra of 8192 / 8193 / 9261 / 10201 / 16385 values, in-process and through pipes / files. Plus readers whose stdin delivers the file in two pieces with a pause, cut inside the header, at its end, inside a value and at a value boundary (io.pipe split<k>). Spectra also reach the readers through a named pipe given as input PATH; npy spectra of more than 128 integer counts without any 0x0a byte are piped. Round 6: files given by PATH carry rotating extensions (.npy .txt .sfs .NPY .saf.npy .npy.txt .gz) whatever format they hold. Round 7: text outputs of 100 KiB and more (21x21x21, 9500 entries).",
+             "non-trivial = distinct request other than a 1-axis spectrum without special values, a non-finite single value or an undetected prefix Plus shapes whose npy header is 64-aligned before padding (20-22 axes) and spectra of 8192 / 8193 / 9261 / 10201 / 16385 values, in-process and through pipes / files. Plus readers whose stdin delivers the file in two pieces with a pause, cut inside the header, at its end, inside a value and at a value boundary (io.pipe split<k>). Spectra also reach the readers through a named pipe given as input PATH; npy spectra of more than 128 integer counts without any 0x0a byte are piped. Round 6: files given by PATH carry rotating extensions (.npy .txt .sfs .NPY .saf.npy .npy.txt .gz) whatever format they hold. Round 7: text outputs of 100 KiB and more (21x21x21, 9500 entries). Round 8: text at 18 … 400 decimals with values down to 4.9e-324.",
         exhaustive=False, assumptions=IO_ASSUME,
     ),
     "C15": dict(
@@ -176,14 +176,14 @@ PROPS.update({
     ),
     "C18": dict(
         theorems=["readExact_schedule_free", "readLine_schedule_free", "readToEnd_schedule_free", "readNpy_schedule_free", "readText_schedule_free", "detect_schedule_free",
-                  "read_failure_surfaces_npy", "read_failure_is_io_npy", "read_failure_surfaces_text", "read_failure_is_io_text", "writeAll_schedule_free", "writeNpy_schedule_free", "writeText_schedule_free",
+                  "read_failure_surfaces_npy", "read_failure_is_io_npy", "read_failure_surfaces_text", "read_failure_is_io_text", "stdout_delivers", "stdout_failure_surfaces", "unflushed_tail_is_buffered", "npy_pieces_are_the_writer", "text_pieces_are_the_writer", "writeAll_schedule_free", "writeNpy_schedule_free", "writeText_schedule_free",
                   "write_failure_surfaces_npy", "write_failure_surfaces_text", "source_prefix_len", "create_read_failure_surfaces", "create_read_failure_surfaces_bytes"],
-        modules=["SfsModel.Props.C18", "SfsModel.Props.Tie", "SfsModel.Props.C18B"],
+        modules=["SfsModel.Props.C18", "SfsModel.Props.Tie", "SfsModel.Props.C18B", "SfsModel.Props.C18C"],
         nontrivial=r"^(rdnpy-|rdtext-|wr-|geno-|fsize-)",
         rule="6 (thorough 30) npy files: first-chunk length enumerated 1..min(len,600) with later chunks whole / 1 byte / random 1-11, a read failure injected at every byte offset 0..len (incl. failing instead of EOF), truncated files over random schedules; "
              "the text reader likewise; writers: 1..7 bytes accepted per call and random schedules, a write failure at every offset (every third in quick); "
              "genotype reader (hook build_from_bufread) over vcf / vcf.gz / bcf / raw bcf for 3 (thorough 12) call sets: first chunk 1..150 (thorough 600) then whole / 1-byte / random chunks, 4096 / 8192 / 65535 / 65536 / 65537, all 1-byte, "
-             "and failures at 21 (thorough 101) offsets across the stream — a failing stream must give an error or the complete result; compared with the create model; non-trivial = every distinct request Plus the binary reading a named pipe given as the input path with a first write of 1 / 2 / 3 / 19 / 27 bytes (vcf, vcf.gz, bcf, raw bcf). Injected failures rotate through seven error kinds (Other, BrokenPipe, ConnectionReset, PermissionDenied, TimedOut, WouldBlock, ConnectionAborted); `io.epipe` runs view / fold / stat with the reading end of stdout already closed. The short-writing sink implements write_vectored natively (the per-call limit applies across the buffers). Round 6: `io.fsize` — stdout a regular file under RLIMIT_FSIZE with the limit inside header, values, the final bytes, at and beyond the full length (F35). Round 7: npy 2.0 / 3.0 with headers of more than 65535 bytes through chunked and failing readers; text streams with a refused header line and a failure at every offset.",
+             "and failures at 21 (thorough 101) offsets across the stream — a failing stream must give an error or the complete result; compared with the create model; non-trivial = every distinct request Plus the binary reading a named pipe given as the input path with a first write of 1 / 2 / 3 / 19 / 27 bytes (vcf, vcf.gz, bcf, raw bcf). Injected failures rotate through seven error kinds (Other, BrokenPipe, ConnectionReset, PermissionDenied, TimedOut, WouldBlock, ConnectionAborted); `io.epipe` runs view / fold / stat with the reading end of stdout already closed. The short-writing sink implements write_vectored natively (the per-call limit applies across the buffers). Round 6: `io.fsize` — stdout a regular file under RLIMIT_FSIZE with the limit inside header, values, the final bytes, at and beyond the full length (F35). Round 7: npy 2.0 / 3.0 with headers of more than 65535 bytes through chunked and failing readers; text streams with a refused header line and a failure at every offset. Round 8: `io.fsizeo` (`-o PATH` under a file-size limit); stdout cases are decided by the line-writer model (`Model/Stdout.lean`).",
         exhaustive=True, assumptions=IO_ASSUME + ["noodles' VCF/BCF/BGZF readers are exercised over chunk schedules, not modelled (partial: explored, not proved)"],
         correspondence_only=["schedule independence and failure propagation of the noodles-based genotype reader path (vcf, vcf.gz, bcf, raw bcf)"],
     ),
@@ -203,7 +203,7 @@ PROPS.update({
         rule="estimator level: 56 (thorough 416) 1-D count spectra with n in {3..7, 10, 25, 63, 64, 100, 169..172, 200, 400} + log-uniform up to 500 (thorough 900) chromosomes, a third with many empty classes: pi, theta, Tajima's D, Fu and Li's D, S, sum; "
              "all 14 statistics (wrong dimensionality -> the specific error) on 160 (thorough 1500) spectra with 1-4 axes of unequal length incl. 3x3, a quarter also through `sfs stat` at precision 6/12/15; 60 (thorough 400) invocations over the option surface of `sfs stat` (header row, delimiter, one precision for all / one per statistic / a wrong number, an inapplicable statistic in any position) against the `statCli` model; "
              "genotype level: 150 (thorough 1500) call sets with 1-4 populations of unequal size (and two-individual sets for KING/R0/R1), 1-60 (thorough 200) records with missing / multiallelic genotypes and unselected columns -> real site reader -> statistics, "
-             "compared with the definitions evaluated directly on the genotypes (Spec.g*, published estimators on the class counts); a fifth through `sfs create | sfs stat --precision 12`; non-trivial = distinct request on a spectrum with more than 4 cells or any genotype-level / CLI case Multiallelic genotypes are spelled with one- and two-digit allele indices (0/2, 0/10, 2/1, 1|12). Every n from 3 to 260 (thorough 700) once at estimator level (the two D statistics on every fifth). The genotype-level CLI cases include pooled call sets (no sample list) whose VCF carries stale AC / AN. Round 6: `st.harm` sweeps harmonic(n) and p_harmonic(n,2) for every n up to 12288 (thorough 40000); spectra with 1024-5009 entries (1-D, 33x33, 11x11x11, 6^4); theta at n = 1024 (thorough 2504, 4096, 5008). Round 7: two thirds of the genotype-level call sets repeat positions and start the second contig where the first ended.",
+             "compared with the definitions evaluated directly on the genotypes (Spec.g*, published estimators on the class counts); a fifth through `sfs create | sfs stat --precision 12`; non-trivial = distinct request on a spectrum with more than 4 cells or any genotype-level / CLI case Multiallelic genotypes are spelled with one- and two-digit allele indices (0/2, 0/10, 2/1, 1|12). Every n from 3 to 260 (thorough 700) once at estimator level (the two D statistics on every fifth). The genotype-level CLI cases include pooled call sets (no sample list) whose VCF carries stale AC / AN. Round 6: `st.harm` sweeps harmonic(n) and p_harmonic(n,2) for every n up to 12288 (thorough 40000); spectra with 1024-5009 entries (1-D, 33x33, 11x11x11, 6^4); theta at n = 1024 (thorough 2504, 4096, 5008). Round 7: two thirds of the genotype-level call sets repeat positions and start the second contig where the first ended. Round 8: `sfs stat` at 17 … 1000 decimals and with per-statistic precision lists such as 6,400,6; sums over 65537 … 100001 entries.",
         exhaustive=False, assumptions=ST_ASSUME,
         correspondence_only=["accuracy of the binary64 evaluation (2^-30 relative bound is tested, not derived)"],
     ),
@@ -215,7 +215,7 @@ PROPS.update({
         nontrivial=r"^strel-",
         rule="200 (thorough 3000) count spectra with 1-4 axes of unequal length (and 3x3): for every applicable statistic the value on x and on T(x) for T in {fold with fill zero (library and `sfs fold --fill zero | sfs stat`), "
              "replace the two monomorphic entries by random values, multiply by a constant in {2, 0.5, 3, 0.1, 1000, 7.25, 0.001}, swap the two populations}, and f3 / f4 against the f2 combination of the marginals computed with the real marginalize; "
-             "both values compared with the model, and the relation itself re-checked on the model values in exact arithmetic (a relation failing there is reported as a model-level violation); non-trivial = every distinct request Plus `sfs stat` invocations computing all applicable statistics together in random order (and count-based next to frequency-based pairs) on x, c*x and x with other monomorphic entries. Plus `monoip`: total and statistic queried, the two monomorphic cells overwritten in place through IndexMut on the same object, statistic queried again (every statistic). 150 (thorough 1500) `hist.scs` call histories on one spectrum object. Scale constants range from 1e-290 to 1e280 (the two D statistics up to 1e100). Round 6: the relations on spectra with 1025-4100 entries (1-D, 33x33, 40x30, 11x11x11, 6^4).",
+             "both values compared with the model, and the relation itself re-checked on the model values in exact arithmetic (a relation failing there is reported as a model-level violation); non-trivial = every distinct request Plus `sfs stat` invocations computing all applicable statistics together in random order (and count-based next to frequency-based pairs) on x, c*x and x with other monomorphic entries. Plus `monoip`: total and statistic queried, the two monomorphic cells overwritten in place through IndexMut on the same object, statistic queried again (every statistic). 150 (thorough 1500) `hist.scs` call histories on one spectrum object. Scale constants range from 1e-290 to 1e280 (the two D statistics up to 1e100). Round 6: the relations on spectra with 1025-4100 entries (1-D, 33x33, 40x30, 11x11x11, 6^4). Round 8: monomorphic entries of 1e18 / 2^62 under fst, king, r0, r1.",
         exhaustive=False, assumptions=ST_ASSUME + ["swapping, scaling and replacing entries are done by the harness on the data (there is no sfs operation for them); folding and marginalisation use the real code"],
     ),
 })
@@ -228,7 +228,7 @@ PROPS.update({
         rule="outcome classes {OK, ERR, PANIC}: the full grid statistic(14) x shapes with 1-4 axes of length 0..4 (all 780 shapes in thorough; 1-3 axes + a fifth of the 4-axis shapes in quick) in-process (each statistic separately, panics caught), a sample of it through `sfs stat` / `sfs fold --fill *` / `sfs view [-O npy]` on text inputs (zero-element spectra included), view option combinations on degenerate shapes, "
              "27 empty / 1-7 byte / header-only inputs x 5 invocations, 24 absurd declared shapes (2^32 x 2^32, zero-masked overflow, 2^64 +- 1, 300 / 22000 axes) x 12 invocations, 35 option values at and beyond their bounds (--precision 65535/65536/2^32/2^64, -p 2^63.., axis 2^64-1, delimiters), 29 contradictory sample lists / projections / thread counts for create, "
              "and a mutation stream of 2400 (thorough 50000) inputs (bit flips, byte edits, deletions, duplications, truncations, splices, huge numbers, separators) over text / npy spectra, VCF, raw BCF and BGZF payloads re-wrapped in valid blocks; where the model predicts the class it must match, elsewhere the run must end in OK or in a non-zero status with a diagnostic on stderr; "
-             "non-trivial = distinct request whose class the model predicts, or any run that ends in a diagnosed error Plus npy / text headers declaring degenerate shapes ((), (,), (0,), (1,), (1, 1), (0, 0), <>) x each of the 14 statistics separately and the view / fold options. Plus every axis length 2..260 (thorough 600) once, projected to two chromosomes with all mass in the last cell, every fourth also to one less than it has. Every single-axis marginalization / keep / projection of every zero-element shape of the grid through the binary. Round 6: axis lists of every form for -m / -M on spectra of 1-6 axes; zero-element shapes at the limits of usize (F37). Round 7: BCF whose records carry more or fewer samples than the header names.",
+             "non-trivial = distinct request whose class the model predicts, or any run that ends in a diagnosed error Plus npy / text headers declaring degenerate shapes ((), (,), (0,), (1,), (1, 1), (0, 0), <>) x each of the 14 statistics separately and the view / fold options. Plus every axis length 2..260 (thorough 600) once, projected to two chromosomes with all mass in the last cell, every fourth also to one less than it has. Every single-axis marginalization / keep / projection of every zero-element shape of the grid through the binary. Round 6: axis lists of every form for -m / -M on spectra of 1-6 axes; zero-element shapes at the limits of usize (F37). Round 7: BCF whose records carry more or fewer samples than the header names. Round 8: refused npy and text headers with 2-, 3- and 4-byte characters at every offset 60-100.",
         exhaustive=True, assumptions=["the binary is the debug build the test suite uses (overflow checks on); in-process cases run under catch_unwind", "noodles / clap / nom / flate2 are exercised, not modelled; 14 panic sites inside noodles-bcf 0.32.0 (`todo!` on reserved typed values, split_at on zero alleles) are listed in known_findings.json and reported as KNOWN-FINDING"],
         correspondence_only=["absence of panics in third-party parsing of arbitrary VCF/BCF bytes (explored by the mutation stream)", "clap's handling of option values (explored)"],
     ),
